@@ -17,8 +17,8 @@ The same generator drives ``CostFunctionFormatter.get_formatted`` and ``kafe2.to
 last displayed digit of the number handed in.
 
 Part B (reports).  Small XYFit / IndexedFit / HistFit problems (1-3 parameters, python-function and string models,
-fixed parameters, constraints, limits, asymmetric errors, both minimizers) are driven through a short history
-(fit / set values / fix / release / new data); at every observation point ``fit.report(stream)``, the preface comment
+fixed parameters, constraints, limits, asymmetric errors, both minimizers) and MultiFits of two such fits with a shared
+parameter are driven through a short history (fit / set values / fix / release / new data); at every observation point ``fit.report(stream)``, the preface comment
 of ``fit.to_file(tmp)``, ``fit.get_result_dict()`` and the model-function formatter are parsed and every name, value,
 uncertainty, correlation, cost, ndf, cost/ndf and chi2 probability is compared with what the fit object holds at that
 moment (text: half a unit of its own last displayed digit; dictionary: EXACT).
@@ -42,9 +42,13 @@ RULE = (
     "with a short history whose reports are parsed back. Values and errors: mantissa class in {carry 9.95..9.99999, tie "
     "x.x5, log-uniform, round, short} x decimal exponent -12..11, either sign and exact zero, error exponent tied to or "
     "independent of the value's; n_significant_digits in {1,2,3}; plain|LaTeX; symmetric|asymmetric (equal / different "
-    "magnitude / one side zero)|fixed|no error|round_value_to_error=False. A string case is non-trivial when a value and "
+    "magnitude / one side zero)|fixed|no error; round_value_to_error in {True, False} x symmetric|asymmetric. A string case is non-trivial when a value and "
     "at least one uncertainty were parsed and all applicable clauses evaluated; a report case when a fit was performed "
-    "and report, preface and result dictionary were all parsed and compared. Distinct by hash of the case."
+    "and report, preface and result dictionary were all parsed and compared. Report cases ask for asymmetric uncertainties either before the "
+    "report (settled), at fit time, or only through the report call itself (lazy). MultiFit report cases: two member fits (xy+xy, xy+indexed, "
+    "hist+hist) with a shared parameter, non-linear models whose MINOS uncertainties differ from the parabolic ones at the two displayed "
+    "digits (counted as stratum asym-visible) and a linear control; report and result dictionary are compared (a MultiFit has no file "
+    "representation). Distinct by hash of the case."
 )
 ASSUMPTIONS = [
     "half-unit comparisons are exact decimal comparisons of the displayed digits with the exact binary value of the held float; "
@@ -100,6 +104,7 @@ def floors(tier):
             "report.names": 60 if q else 2000,
             "report.parameter-line": 90 if q else 3000,
             "report.correlation": 100 if q else 3000,
+            "report.par.asym-error-rounded": 25 if q else 800,
             "report.cost": 40 if q else 1500,
             "report.ndf": 30 if q else 1000,
             "report.cost-per-ndf": 30 if q else 1000,
@@ -114,12 +119,13 @@ def floors(tier):
             "result-dict.exact": 400 if q else 10000,
             "model-string.value": 60 if q else 1500,
         },
-        "ops": ["fmt", "cost", "compact", "report-case", "do_fit", "observe", "report", "to_file", "get_result_dict", "set_values", "fix", "release", "new_data"],
+        "ops": ["fmt", "cost", "compact", "report-case", "multi-report-case", "do_fit", "observe", "report", "to_file", "get_result_dict", "set_values", "fix", "release", "new_data"],
         "reach": ["%s:%s" % a for a in ANCHORS],
         "strata": ["fmt|%s|n%d|%s" % (m, n, l) for m in MODES for n in (1, 2, 3) for l in ("plain", "latex")]
         + ["mant|%s|%s" % (a, b) for a in MANT + ["zero"] for b in MANT]
-        + ["fit|xy", "fit|indexed", "fit|hist", "model|python", "model|string", "report|asym", "report|sym", "report|fixed", "report|constraint", "report|limit", "report|unfitted", "report|scipy", "report|iminuit"],
-        "sets": {"report-combos": 20 if q else 60},
+        + ["fit|xy", "fit|indexed", "fit|hist", "model|python", "model|string", "report|asym", "report|sym", "report|fixed", "report|constraint", "report|limit", "report|unfitted", "report|scipy", "report|iminuit"]
+        + ["report|asym-lazy", "report|asym-settled", "report|asym-visible", "fit|multi", "multi|nonlinear", "multi|asym-lazy", "multi|asym-at-fit", "multi|asym-settled", "multi|sym", "multi|asym-visible|lazy", "multi|asym-visible|not-lazy"],
+        "sets": {"report-combos": 20 if q else 60, "multi-report-combos": 6 if q else 30},
         "distinct_nontrivial": 40000 if q else 1000000,
     }
 
